@@ -66,6 +66,7 @@ type gopIn struct {
 	// send
 	To     int  `json:"to"`      // account index, or pool selector when ToPool
 	ToPool bool `json:"to_pool"` //
+	Gamm   bool `json:"gamm"`    // swap_in / swap_out through the gamm module's own (legacy) swap messages
 }
 
 type gcaseIn struct {
@@ -724,6 +725,10 @@ func (g *gworld) runOp(op gopIn) (o gstepOut) {
 		g.log = &lg
 		lower := kind == "in" || kind == "split_in"
 		oo.Lim = limOf(op.LM, op.Lim, estBase, estOk, lower).String()
+		if op.Gamm && (kind == "in" || kind == "out") {
+			oo.K = "g" + kind
+			o.Rop["via"] = "gamm"
+		}
 		g.execIds(ctx, &oo)
 		o.Rop["kind"], o.Rop["route"], o.Rop["legs"], o.Rop["d"], o.Rop["amt"], o.Rop["lim"] = kind, oo.Route, oo.Legs, oo.D, oo.Amt, oo.Lim
 		o.Err, o.Val, o.Etxt = oo.Err, oo.Res, oo.Etxt
@@ -866,7 +871,9 @@ func runC02(t *testing.T, c gcaseIn) (o gobsOut) {
 		app.BankKeeper, app.AccountKeeper, app.DistrKeeper, app.StakingKeeper, app.ProtoRevKeeper, app.WasmKeeper)
 	w.ms = poolmanager.NewMsgServerImpl(w.rk)
 	w.q = pmclient.NewQuerier(w.rk)
+	app.GAMMKeeper.SetPoolManager(w.rk) // the gamm keeper's own router calls (legacy swap messages, CreatePool) go through the recording keeper
 	g.gms = gammkeeper.NewMsgServerImpl(app.GAMMKeeper)
+	w.gms = g.gms
 	g.bms = gammkeeper.NewBalancerMsgServerImpl(app.GAMMKeeper)
 	g.sms = gammkeeper.NewStableswapMsgServerImpl(app.GAMMKeeper)
 	for _, a := range c.Denoms {
